@@ -10,6 +10,8 @@
      then <step>
      set p<j> | call e<k> | drain e<k> | start tofuture | start tofuture:<ex> | start detach | start detach:<ex>
      droptask | dropfuture | get | expect
+     flush                                 repeat { use the pending promise with the smallest number, else let the user executor
+                                           with the smallest number run one job } until nothing is left to do
      end                                   end of the program (state is reset)
 
      <source> ::= ready <r> | contract p<j> <ful> | contract_on <ex> p<j> <ful> | run <step> | async_contract <ex> p<j> <ful>
@@ -142,9 +144,9 @@ def showState (d : D) : String :=
   let g := st.g
   let ctl := match st.ctl with
     | .idle => "idle"
-    | .future r _ => s!"ready:{showR r}"
-    | .pending _ => "pending"
     | .task _ _ => "task"
+    | .future r _ => if st.held then s!"ready:{showR r}" else "gone"
+    | .pending _ => if st.held then "pending" else "gone"
     | .gone => "gone"
   let got := match st.got with
     | some r => s!" got:{showR r}"
@@ -164,6 +166,18 @@ def drain (d : D) (k : Nat) : Nat → D
       (match t.wait with
        | .job _ k' _ => if k = k' && !d.st.crashed then drain (apply d (.call k)) k fuel else d
        | _ => d)
+    | _ => d
+
+/-- let everything that can still happen happen: fulfil the promise / run the job the pipeline waits for, until it rests -/
+def flush (d : D) : Nat → D
+  | 0 => d
+  | fuel + 1 =>
+    if d.st.crashed then d else
+    match d.st.ctl with
+    | .pending t =>
+      (match t.wait with
+       | .promise p _ => flush (apply d (.set p)) fuel
+       | .job _ k _ => flush (apply d (.call k)) fuel)
     | _ => d
 
 def parseStart (s : String) : Option StartKind :=
@@ -227,6 +241,7 @@ def stepLine (d : D) (ts : List String) : D × Option String :=
     (match parseStart k with
      | some k => (apply d (.start k), none)
      | none => (d, some "bad"))
+  | ["flush"] => (flush d 100000, none)
   | ["droptask"] => (apply d (.start .cancel), none)
   | ["dropfuture"] => (apply d .dropFuture, none)
   | ["get"] => (apply d .get, none)
